@@ -60,7 +60,7 @@ func extractFacts(repo string) map[string][]string {
 			if fd.Recv != nil && len(fd.Recv.List) == 1 {
 				name = recvName(fd.Recv.List[0].Type) + "." + name
 			}
-			var calls []string
+			calls := []string{}
 			ast.Inspect(fd.Body, func(n ast.Node) bool {
 				switch x := n.(type) {
 				case *ast.DeferStmt:
